@@ -843,6 +843,11 @@ class SimWorld:
             snap_args, snap_kwargs = copy.deepcopy((proc._args, proc._kwargs))
         except SimUnsupported:
             raise
+        except Exception as e:
+            # an OS-level resource (open file, C handle) handed to the child: fork would share the open
+            # file description (and its offset) between the processes, which this model cannot represent
+            self.procs.pop()
+            raise SimUnsupported("fork-snapshot-of-uncopyable-object:%s" % type(e).__name__)
         proc._child_args = snap_args
         proc._child_kwargs = snap_kwargs
         task = self.kernel.add_task(proc.name, proc.label, "W", proc.ordinal, lambda t, p=proc: self._child_main(p))
